@@ -161,6 +161,19 @@ int main(int argc, char** argv) {
     for (auto d : {std::pair<int,int>{40, 37}, {33, 18}}) { if (!mine()) continue; vt::Rng rng(args.seed * 31 + d.first);
         gil::image_write_info<gil::tiff_tag> fi; fi._is_tiled = true; fi._tile_width = 16; fi._tile_length = 16; fi._photometric_interpretation = PHOTOMETRIC_RGB;
         auto p = make<gil::tiff_tag, gil::rgb8_image_t>("tif", d.first, d.second, rng, fi, true); paths<gil::tiff_tag, gil::rgb8_image_t, false, false, false>("tif", "rgb8/tile16/large", p, false, rng); remove(p.c_str()); }
+    // rows wider than the stream buffers of the devices (one read() call spans several refills): devices must still agree
+    for (int which = 0; which < 3; ++which) { if (!mine()) continue; vt::Rng rng(args.seed * 53 + which);
+        vt::isolated([&] {
+            gil::rgb8_image_t img(6000, 3); fill_random(img, rng); std::string path = g_tmp + "/wide_" + std::to_string(getpid()) + (which == 0 ? ".pnm" : which == 1 ? ".bmp" : ".tga");
+            auto emit = [&](auto tag, const char* fmt) { using Tag = decltype(tag);
+                gil::write_view(path, gil::const_view(img), Tag());
+                J("File").str("fmt", fmt).str("variant", "rgb8/6000x3").str("file", "wide").boolean("convert", false).emit();
+                gil::rgb8_image_t canon; gil::read_image(path, canon, Tag()); J("Canon").num("w", canon.width()).num("h", canon.height()).raw("pix", pix_json(gil::const_view(canon))).emit();
+                { std::ifstream in(path, std::ios::binary); gil::rgb8_image_t a; gil::read_image(in, a, Tag()); J("Dev").str("dev", "stream").num("w", a.width()).num("h", a.height()).raw("pix", pix_json(gil::const_view(a))).emit(); }
+                { FILE* f = fopen(path.c_str(), "rb"); gil::rgb8_image_t a; gil::read_image(f, a, Tag()); J("Dev").str("dev", "FILE*").num("w", a.width()).num("h", a.height()).raw("pix", pix_json(gil::const_view(a))).emit(); }
+                J("EndFile").emit(); remove(path.c_str()); };
+            if (which == 0) emit(gil::pnm_tag(), "pnm"); else if (which == 1) emit(gil::bmp_tag(), "bmp"); else emit(gil::targa_tag(), "tga"); }, 120);
+    }
     // corpus files: variants GIL cannot write itself (palette / RLE / 16-bit BMP, ascii PNM, RLE and origin variants of TARGA, interlaced and palette PNG)
     struct CF { const char* dir; const char* name; const char* variant; };
     { vt::Rng rng(args.seed * 77);
